@@ -1,12 +1,35 @@
 /-
-  Line-protocol handlers for C02.  `handle` receives the tokens after the property id.
+  Line-protocol handlers for C02 (refinements hold on every produced value).
 -/
 import GEVerif.Model.Sexp
+import GEVerif.Model.Synth
+import GEVerif.Drive.Val
+import GEVerif.Drive.C01
 
 namespace GEVerif.Drive.C02
-open GEVerif Sexp
+open GEVerif Sexp GEVerif.Drive
+
+def parseDeps (s : Sexp) : Option (List (String × Val)) := do
+  let xs ← s.asList?
+  xs.mapM fun
+    | list [atom k, v] => do pure (k, ← parseVal v)
+    | _ => none
+
+/-- a grammar with one abstract class and one field-less production, enough to host the
+`rec` callback of list refinements over base types -/
+def hostGrammar : Grammar :=
+  analyse { classes := [{ name := "A", abstract := true, parent := none, fields := [] },
+                        { name := "L", abstract := false, parent := some 0, fields := [] }],
+            start := 0, considered := [1] }
 
 def handle : List Sexp → Option Sexp
-  | _ => none
+  | [atom "gen", ty, deps, draws] => do
+      -- `create_node` on a refined type with given sibling values (metahandler.generate)
+      let r := createNode hostGrammar { kind := .grow, maxDepth := 3 } 64 (← parseTy ty) ⟨1, 1⟩
+        (← parseDeps deps) (mkSynSt (← draws.asNats?))
+      pure (resSx valSx r)
+  | [atom "prop_sat", mh, deps, v] => do
+      pure (ofBool (sat (← parseMH mh) (← parseDeps deps) (← parseVal v)))
+  | rest => C01.handle rest
 
 end GEVerif.Drive.C02
